@@ -11,7 +11,7 @@ from pathlib import Path
 from hypothesis import strategies as st
 
 from .. import env
-from ..driver import EnumPart, HypPart, InvalidCase, Rec, Violation
+from ..driver import EnumPart, HypPart, InvalidCase, Rec, SutHang, Violation, watchdog
 
 ID = "C07"
 LEVEL = "exploration"
@@ -299,7 +299,10 @@ class AllocModel:
         pos = self.idx.get(key, 0)
         if pos >= len(m):
             try:
-                got = self.mgr.get_next(d)
+                with watchdog():
+                    got = self.mgr.get_next(d)
+            except SutHang:
+                raise Violation("hang:get_next", f"step {si}: allocation #{pos + 1} on {key} did not return")
             except RuntimeError as e:
                 if "Ran out of zorg IDs" not in str(e):
                     raise Violation("exhaustion-error", f"step {si}: {e!r}")
@@ -309,7 +312,10 @@ class AllocModel:
                 raise Violation("exhaustion-error", f"step {si}: {type(e).__name__}: {e}")
             raise Violation("exhaustion-silent", f"step {si}: allocation #{pos + 1} on {key} returned {got!r}")
         try:
-            got = self.mgr.get_next(d)
+            with watchdog():
+                got = self.mgr.get_next(d)
+        except SutHang:
+            raise Violation("hang:get_next", f"step {si}: allocation #{pos + 1} on {key} did not return")
         except RuntimeError as e:
             raise Violation("premature-exhaustion",
                             f"step {si}: allocation #{pos + 1} of {N_TOTAL} on {key} "
@@ -420,7 +426,10 @@ def check_full_walk(case, rec: Rec) -> None:
             if pos % case["every"] == 0:
                 mgr = ZIDManager(zdir)
             try:
-                got = mgr.get_next(d)
+                with watchdog():
+                    got = mgr.get_next(d)
+            except SutHang:
+                raise Violation("hang:get_next", f"allocation #{pos + 1} on {key} did not return")
             except RuntimeError as e:
                 raise Violation("premature-exhaustion",
                                 f"allocation #{pos + 1} of {N_TOTAL} on {key} (suffix {m[pos]!r}) raised {e}")
@@ -429,7 +438,10 @@ def check_full_walk(case, rec: Rec) -> None:
             seen.add(got)
         if case.get("limit", len(m)) == len(m):
             try:
-                got = mgr.get_next(d)
+                with watchdog():
+                    got = mgr.get_next(d)
+            except SutHang:
+                raise Violation("hang:get_next", f"allocation #{len(m) + 1} on {key} did not return")
             except RuntimeError as e:
                 if "Ran out of zorg IDs" not in str(e):
                     raise Violation("exhaustion-error", repr(e))
